@@ -583,8 +583,9 @@ Proof.
   - cbn [fst]. apply LI_queue_loop_turn; auto.
   - destruct (autodel s) as [|qn rest]; [exact H|].
     assert (H0 : LI (s <| autodel := rest |>)) by (same_conns; auto).
-    pose proof (LI_vhost_delete_queue (negb (fx_delete_checks_first fx)) _ qn false false H0) as Hd.
-    destruct (vhost_delete_queue _ (s <| autodel := rest |>) qn false false) as [[s1 e1] r1]. exact Hd.
+    destruct (get_queue _ qn) as [qu0|]; [|exact H0]. destruct (q_autodel qu0); [|exact H0].
+    pose proof (LI_vhost_delete_queue (negb (fx_delete_checks_first fx)) _ qn true false H0) as Hd.
+    destruct (vhost_delete_queue _ (s <| autodel := rest |>) qn true false) as [[s1 e1] r1]. exact Hd.
   - cbn [fst]. apply fold_left_preserves.
     + intros s0 k H0. eapply allch_same_conns; [apply conns_store_confirm|exact H0].
     + repeat same_conns. auto.
